@@ -5,15 +5,20 @@
    (block split, Reed-Solomon, interleave), QRMRender.v (function patterns,
    placement, masks), QRM.v (qr_encode content level mode mask).  The mask is a
    parameter: render's penalty-based choice is not constrained by the property,
-   the theorems hold for each of the 8 masks (DESIGN 2.2).
+   the theorems hold for each of the 8 masks (DESIGN 2.2).  QRMPenalty.v models that
+   choice as well (calcPenaltyRule1..4, first lowest penalty): qr_encode_auto is
+   Encode with the selection; it is one of the 8 candidates, so the theorems carry
+   over (C01_roundtrip_selected), and the selection loop returns the first index of
+   minimal penalty (C01_mask_selection).  A different choice by the implementation
+   is NOT a violation of C01; the check records it as information only.
    Specification: spec/QRSpec.v, written from ISO/IEC 18004: qr_valid_rows and
    qr_decode_rows read the symbol like a reader (size -> version, both format
    copies BCH-valid and equal, version information, unmasking, codewords in
    placement order, de-interleaving, every block syndrome-free, segment parsing,
    terminator / pad check, all fixed patterns in place).
    Strings are byte lists (is_bytes: every element in 0..255). *)
-From Verif Require Import Prelude Barcode BitListM GFM TabQr QRMBits QRMBlocks QRMRender QRM QRSpec
-  QRP1Tables QRP2Layout QRP3Pad QRP4Blocks QRP5Place QRP6Compose QRProps.
+From Verif Require Import Prelude Barcode BitListM GFM TabQr QRMBits QRMBlocks QRMRender QRM QRMPenalty QRSpec
+  QRP1Tables QRP2Layout QRP3Pad QRP4Blocks QRP5Place QRP6Compose QRProps QRPenaltyP.
 
 (* The main theorem.  For every content, level value, mode among Auto / Numeric /
    AlphaNumeric / Unicode and mask: if the encoder returns a barcode, its image is a
@@ -40,6 +45,39 @@ Theorem C01_reading : forall content level mode mask bc,
     /\ forallb (block_ok (bl_e (spec_blocks v l))) (rd_blocks r) = true.
 Proof. exact qr_c01_reading. Qed.
 Print Assumptions C01_reading.
+
+(* The main theorem for the symbol Encode returns: qr_encode_auto builds the 8 candidates and
+   returns the one render's penalty loop selects.  Same conclusion as C01_roundtrip. *)
+Theorem C01_roundtrip_selected : forall content level mode bc,
+  is_bytes content -> valid_encoding mode ->
+  qr_encode_auto content level mode = Ok bc ->
+  qr_valid_rows (bc_rows bc) = true /\ qr_decode_rows (bc_rows bc) = Some content.
+Proof. exact qr_c01_roundtrip_auto. Qed.
+Print Assumptions C01_roundtrip_selected.
+
+(* qr_encode_auto is one of the candidates of qr_encode, and it accepts exactly what qr_encode
+   accepts: same kind of outcome as qr_encode with mask 0, for every content, level and mode. *)
+Theorem C01_selected_is_candidate : forall content level mode,
+  (forall bc, qr_encode_auto content level mode = Ok bc ->
+     exists mask, 0 <= mask < 8 /\ qr_encode content level mode mask = Ok bc)
+  /\ match qr_encode content level mode 0 with
+     | Ok _ => exists bc, qr_encode_auto content level mode = Ok bc
+     | Err => qr_encode_auto content level mode = Err
+     | Panic => qr_encode_auto content level mode = Panic
+     | OutOfFuel => qr_encode_auto content level mode = OutOfFuel
+     end.
+Proof. exact (fun c l m => conj (qr_encode_auto_is_candidate c l m) (qr_encode_auto_outcome c l m)). Qed.
+Print Assumptions C01_selected_is_candidate.
+
+(* The selection loop of render (lowestPenalty / lowestPenaltyIdx): for a non-empty candidate list
+   the index is inside the list, the chosen candidate's penalty is <= every candidate's and
+   strictly below the penalty of every earlier candidate (first one wins ties). *)
+Theorem C01_mask_selection : forall ms, ms <> [] ->
+  exists mk, zget ms (choose_mask ms) = Some mk
+    /\ forall j mj, zget ms j = Some mj ->
+         calc_penalty mk <= calc_penalty mj /\ (j < choose_mask ms -> calc_penalty mk < calc_penalty mj).
+Proof. exact choose_mask_minimal. Qed.
+Print Assumptions C01_mask_selection.
 
 (* Layer 1 -- the tables of the source (regenerated into gen/TabQr.v on every run) are
    the ISO tables: the 160 block-structure rows, the 32 format words = BCH(15,5) xor
@@ -156,3 +194,18 @@ Example C01_nonvacuous_versions :
     | _ => false
     end) [(41, 0); (42, 1); (300, 2); (1000, 5)] = true.
 Proof. exact qr_example_versions. Qed.
+
+(* the selection on concrete contents: the model picks the masks qr.Encode picks (0, 3, 5, 3,
+   read off the implementation's output), and the selected symbol is that candidate and reads back *)
+Example C01_selected_masks :
+  map (fun t => qr_chosen_mask (fst (fst t)) (snd (fst t)) (snd t))
+      [([104; 101; 108; 108; 111], 1, 0); ([49; 50; 51; 52; 53], 0, 1);
+       ([72; 69; 76; 76; 79; 32; 87; 79; 82; 76; 68], 3, 2); ([195; 169], 2, 3)]
+  = [Ok 0; Ok 3; Ok 5; Ok 3]
+  /\ match qr_encode_auto [104; 101; 108; 108; 111] 1 0 with
+     | Ok bc => qr_encode [104; 101; 108; 108; 111] 1 0 0 = Ok bc
+                /\ qr_decode_rows (bc_rows bc) = Some [104; 101; 108; 108; 111]
+                /\ qr_valid_rows (bc_rows bc) = true
+     | _ => False
+     end.
+Proof. exact qr_example_auto. Qed.
